@@ -1,10 +1,19 @@
-(* C05 -- property theorems only; each is closed by a lemma of Lemmas.v / LemmasConc.v / Refuted.v.
+(* C05 -- property theorems only; each is closed by a lemma of Lemmas.v / LemmasConc.v / LemmasAct.v / LemmasRef.v /
+   Refuted.v.
    G ranges over every configuration (parameters of any datatype, any omit interval, any export setting, any set
    of subscribed connections), s over every cache state, ops over every history of wrapped reads / writes /
-   assignments / announceUpdate calls with any driver behaviour and any clock. *)
+   assignments / announceUpdate calls with any driver behaviour and any clock; in the concurrent theorems progs
+   ranges over any number of threads with any programs (driver operations, handle_activate / handle_deactivate /
+   remove_connection requests of any connection) and sched over every schedule. *)
 From Coq Require Import List Arith ZArith Bool.
 Import ListNotations.
-Require Import FV.Base.PyVal FV.Gen.C05 FV.C05.Model FV.C05.Lemmas FV.C05.LemmasConc FV.C05.Refuted.
+Require Import FV.Base.PyVal FV.Gen.C05 FV.C05.Model FV.C05.Lemmas FV.C05.LemmasConc FV.C05.LemmasAct FV.C05.LemmasRef
+  FV.C05.Refuted.
+
+(* the shapes read off the source, as the flags of the concurrent model *)
+Definition src_flags : flags :=
+  {| f_locked := announce_in_updateLock; f_reg_first := activate_registers_first;
+     f_snap_locked := snapshot_in_updateLock; f_private := broadcast_iterates_private_copy |}.
 
 (* obligations on the facts regenerated from /repo (Gen/C05.v) *)
 Theorem C05_source_facts :
@@ -12,7 +21,9 @@ Theorem C05_source_facts :
   notify_only_if_exported = true /\ changed_includes_readerror = true /\ repeated_error_test = true /\
   omit_test = true /\ read_wrapper_routes = true /\ write_wrapper_routes = true /\ assignment_routes = true /\
   make_update_reads_cache = true /\ announce_update_broadcasts = true /\ omit_resolution = true /\
-  error_eq_ignores_methods = true /\ update_unchanged_codes = (0, 999999999, -1)%Z.
+  error_eq_ignores_methods = true /\ update_unchanged_codes = (0, 999999999, -1)%Z /\
+  activate_registers_first = true /\ snapshot_in_updateLock = true /\ broadcast_iterates_private_copy = true /\
+  src_flags = flags_ok.
 Proof. repeat split; reflexivity. Qed.
 Print Assumptions C05_source_facts.
 
@@ -66,21 +77,93 @@ Theorem C05_recovery_announced : forall G s o k sc p P c e c',
 Proof. exact recovery_announced. Qed.
 Print Assumptions C05_recovery_announced.
 
-(* any number of threads, any schedule: the region of announceUpdate between the clock read and the last send_reply
-   of one module is never executed by two threads at once -- given that the source encloses it by the lock *)
-Theorem C05_update_region_exclusive : forall G s progs sched,
-  announce_in_updateLock = true ->
-  exclusive G (cs_thr (crun G announce_in_updateLock (cinit s progs) sched)).
-Proof. intros G s progs sched ->. apply crun_exclusive, cinit_exclusive. Qed.
+(* ------------------------------------------------------------------ any number of threads, every schedule.
+   Threads: driver threads (wrapped read_ / write_, assignment, announceUpdate) and connection threads (the real
+   handle_activate for the whole node, a module or one parameter; handle_deactivate; remove_connection).  The
+   hypotheses on the flags are the source facts of C05_source_facts. *)
+
+(* the regions of one module -- announceUpdate from the clock read to the last send_reply, handle_activate while it
+   builds and sends the initial values of the module -- are never executed by two threads at once *)
+Theorem C05_update_region_exclusive : forall G s ss progs sched,
+  src_flags = flags_ok -> length (s_cells s) = length (g_params G) ->
+  exclusive G (cs_thr (crun G src_flags (cinit s ss progs) sched)).
+Proof. intros G s ss progs sched -> L. apply crun_exclusive; [apply cinit_wf; auto|apply cinit_exclusive]. Qed.
 Print Assumptions C05_update_region_exclusive.
 
-(* ... and a thread outside that region (before the lock) changes neither the cache nor any stream *)
-Theorem C05_outside_region_frame : forall G locked st ts i t st' t',
-  tstep G locked st ts i t = Some (st', t') ->
+(* ... and a thread outside (before the lock) changes neither the cache nor any stream nor the subscriptions *)
+Theorem C05_outside_region_frame : forall G F st ss ts i t acts t',
+  tstep G F st ss ts i t = Some (acts, t') ->
   match t_pk t with KStart | KAcqA | KDrv => True | _ => False end ->
-  s_cells st' = s_cells st /\ s_log st' = s_log st.
+  let x := fold_left (fun x a => ceff G a x) acts (st, ss) in
+  s_cells (fst x) = s_cells st /\ s_log (fst x) = s_log st /\ snd x = ss.
 Proof. exact tstep_outside_frame. Qed.
 Print Assumptions C05_outside_region_frame.
 
+(* (1) activation coherence under concurrency.  Start: any cache, every connection activated as the configuration
+   says (possibly not at all).  After any schedule of any threads, at every point at which no thread is inside the
+   body of announceUpdate or inside handle_activate after its registration ([quiet]): every connection, for every
+   scope it is registered for at that point and every parameter the scope covers, holds as newest message of the
+   parameter a report of the cached entry -- no lost update, no stale initial value.  ([reports G None]: as in
+   C05_coherent_except_error_text.) *)
+Theorem C05_concurrent_activation_coherent : forall G s0 progs sched,
+  src_flags = flags_ok -> wf_config G -> length (s_cells s0) = length (g_params G) ->
+  let r := crun G src_flags (cinit (activate_all G s0) (subs0 G) progs) sched in
+  quiet r = true ->
+  forall k scs sc p P c,
+    nth_error (cs_subs r) k = Some scs -> In sc scs -> covers G sc p = true ->
+    nth_error (g_params G) p = Some P -> nth_error (s_cells (cs_st r)) p = Some c ->
+    exists m, replay p (msgs_of k (cs_st r)) = Some m /\ reports G None P p c m.
+Proof.
+  intros G s0 progs sched -> WG L r Q k scs sc p P c Hk Hsc Hc HP Hcell. rewrite replay_latest.
+  refine (concurrent_coherent G (activate_all G s0) (subs0 G) progs sched WG _ (served_activate G s0) Q
+            k scs sc p P c Hk Hsc Hc HP Hcell).
+  rewrite activate_all_cells; auto.
+Qed.
+Print Assumptions C05_concurrent_activation_coherent.
+
+(* (2) refinement ("cut from the design" in the first version).  [ctrace] lists what the threads commit, in the order
+   of the commit points: the wrapper prologue of an operation (bookkeeping of raising_methods), its announce region
+   (at the clock read right after updateLock is taken: for one module that is the order in which the threads acquired
+   the lock), every initial value of handle_activate (when it is built, inside the lock), registrations and
+   deregistrations.  [arun] executes that list sequentially with every region atomic: an announce region serves all
+   its listeners at once, an initial value is delivered when it is built.  For every schedule the concurrent run has
+   the cache, the clock, the heap and the subscriptions of that sequential run; the stream of every connection about
+   every parameter is the sequential one minus what threads inside a region still have in hand ([pend]); at a
+   quiescent point the streams (and what a client replays from them) are equal.
+   Streams are compared per (connection, parameter): messages about parameters of different modules are sent by
+   threads holding different locks and may reach two connections in different orders -- the property orders messages
+   per parameter only. *)
+Theorem C05_concurrent_refinement : forall G st ss progs sched,
+  src_flags = flags_ok -> length (s_cells st) = length (g_params G) ->
+  let r := crun G src_flags (cinit st ss progs) sched in
+  let q := arun G (ctrace G src_flags (cinit st ss progs) sched) (st, ss) in
+  s_cells (cs_st r) = s_cells (fst q) /\ s_heap (cs_st r) = s_heap (fst q) /\ s_now (cs_st r) = s_now (fst q) /\
+  cs_subs r = snd q /\
+  (forall k p, plog k p (s_log (fst q)) = pend k p (cs_thr r) ++ plog k p (s_log (cs_st r))) /\
+  (quiet r = true -> forall k p, pstream k p (cs_st r) = pstream k p (fst q) /\
+                                 replay p (msgs_of k (cs_st r)) = replay p (msgs_of k (fst q))).
+Proof. intros G st ss progs sched -> L. exact (concurrent_refinement G st ss progs sched L). Qed.
+Print Assumptions C05_concurrent_refinement.
+
+(* ... and the sequential reading is the sequential model: the two actions of a driver operation, executed one after
+   the other with the subscriptions of the configuration, are one [step] (so C05_order_no_phantom and
+   C05_recovery_announced speak about every announce region of every schedule) *)
+Theorem C05_sequential_reading_is_step : forall G s o P,
+  nth_error (g_params G) (o_p o) = Some P ->
+  arun G (AHeap P o :: match snd (pre P (s_heap s) o) with Some inp => [AFun P o inp] | None => [] end) (s, subs0 G)
+  = (step G s o, subs0 G).
+Proof. exact step_as_actions. Qed.
+Print Assumptions C05_sequential_reading_is_step.
+
 Print Assumptions C05_refuted_error_text_stable.
 Print Assumptions C05_refuted_without_update_lock.
+Print Assumptions C05_refuted_registration_after_snapshot.
+Print Assumptions C05_refuted_snapshot_outside_lock.
+Print Assumptions C05_refuted_live_listener_set.
+
+(* non-vacuity: a run in which an activation races with two updates reaches a quiescent state with a registered,
+   covered, served connection *)
+Example C05_concurrent_nonvacuous :
+  let r := crun aG flags_ok (cinit aS (subs0 aG) a_progs) [1; 1; 0; 0; 0; 0; 1; 1] in
+  cs_ok r && quiescent r && quiet r && Nat.eqb (length (msgs_of 0 (cs_st r))) 2 = true.
+Proof. vm_compute. reflexivity. Qed.
